@@ -54,6 +54,8 @@ type world struct {
 	cliHost *Host
 	client *certexchange.Client
 	stored int // number of certificates of h in the server store
+	pollCS *certstore.Store
+	poller *polling.Poller
 }
 
 func newWorld(e *env, ncerts, stored int, timeout time.Duration) *world {
@@ -429,26 +431,55 @@ func (w *world) checkPoller(timeout time.Duration) {
 	if len(h.Certs) == 0 {
 		return
 	}
-	// the polling node holds a prefix of the history
-	have := c.Intn(len(h.Certs))
-	if have == 0 && h.First != 0 {
-		// polling.NewPoller starts from instance 0 on an empty store, which only exists when the
-		// store's first instance is 0 (observation recorded in DESIGN.md, outside C16)
-		have = 1
-	}
-	ds := simds.New()
-	cs, err := certstore.CreateStore(bg, ds, h.First, h.Tables[0])
-	if err != nil {
-		kernel.Infra("CreateStore: %v", err)
-	}
-	for i := 0; i < have; i++ {
-		if err := cs.Put(bg, h.Certs[i]); err != nil {
-			kernel.Infra("Put: %v", err)
+	// the polling node holds a prefix of the history; its poller lives across several polls and
+	// the store may also advance locally in between (certificates from the node's own consensus)
+	if w.poller == nil || c.Chance(300) {
+		have := c.Intn(len(h.Certs))
+		if have == 0 && h.First != 0 {
+			// polling.NewPoller starts from instance 0 on an empty store, which only exists when the
+			// store's first instance is 0 (observation recorded in DESIGN.md, outside C16)
+			have = 1
+		}
+		cs, err := certstore.CreateStore(bg, simds.New(), h.First, h.Tables[0])
+		if err != nil {
+			kernel.Infra("CreateStore: %v", err)
+		}
+		for i := 0; i < have; i++ {
+			if err := cs.Put(bg, h.Certs[i]); err != nil {
+				kernel.Infra("Put: %v", err)
+			}
+		}
+		w.pollCS = cs
+		w.poller, err = polling.NewPoller(bg, w.client, cs, w.g.Sig)
+		if err != nil {
+			kernel.Infra("NewPoller: %v", err)
+		}
+		if c.Chance(300) {
+			if _, err := w.poller.CatchUp(bg); err != nil {
+				kernel.Infra("CatchUp: %v", err)
+			}
 		}
 	}
-	poller, err := polling.NewPoller(bg, w.client, cs, w.g.Sig)
-	if err != nil {
-		kernel.Infra("NewPoller: %v", err)
+	cs, poller := w.pollCS, w.poller
+	have := latestCount(cs, h.First)
+	if have >= len(h.Certs) {
+		w.poller = nil
+		return
+	}
+	// local progress between polls
+	if n := c.Intn(4); n > 0 && c.Chance(500) {
+		for i := 0; i < n && have < len(h.Certs)-1; i++ {
+			if err := cs.Put(bg, h.Certs[have]); err != nil {
+				kernel.Infra("local Put: %v", err)
+			}
+			have++
+		}
+		w.r.Fault("store_advanced_locally_between_polls")
+		if c.Chance(400) {
+			if _, err := poller.CatchUp(bg); err != nil {
+				kernel.Infra("CatchUp: %v", err)
+			}
+		}
 	}
 	// the peer: valid certificates have..have+v-1, then possibly an invalid one, then more
 	avail := len(h.Certs) - have
